@@ -170,6 +170,31 @@ theorem fcEq_eq (a b : Coll) (u : Unit) :
   · intro hb; simp [Src.Coll.fcEqTrack, eqFC, hb]
   · simp [Src.Coll.fcEqOther]
 
+/-- `Track.__eq__`, per class of the other operand -/
+theorem trackEq_eq (a b : Coll) (u : Unit) :
+    (b.tag = .track → Src.Coll.trackEqTrack qdt xi xc qc a b = a.eqTrack b) ∧
+    (b.tag = .fc → Src.Coll.trackEqFc qdt xi xc qc a b = a.eqTrack b) ∧
+    Src.Coll.trackEqOther qdt xi xc qc a u = false := by
+  refine ⟨?_, ?_, ?_⟩
+  · intro hb; simp [Src.Coll.trackEqTrack, eqTrack, hb]
+  · intro hb; simp [Src.Coll.trackEqFc, eqTrack, hb]
+  · simp [Src.Coll.trackEqOther]
+
+/-- `a == b` of the source, by the class of the left operand, is the model's `eqColl` (what the `list-eq` stream runs) -/
+theorem eqColl_eq (a b : Coll) :
+    (a.tag = .fc → b.tag = .fc → Src.Coll.fcEqFc qdt xi xc qc a b = eqColl a b) ∧
+    (a.tag = .fc → b.tag = .track → Src.Coll.fcEqTrack qdt xi xc qc a b = eqColl a b) ∧
+    (a.tag = .track → b.tag = .track → Src.Coll.trackEqTrack qdt xi xc qc a b = eqColl a b) ∧
+    (a.tag = .track → b.tag = .fc → Src.Coll.trackEqFc qdt xi xc qc a b = eqColl a b) := by
+  refine ⟨?_, ?_, ?_, ?_⟩ <;> intro ha hb <;>
+    simp [Src.Coll.fcEqFc, Src.Coll.fcEqTrack, Src.Coll.trackEqTrack, Src.Coll.trackEqFc, eqColl, eqFC, eqTrack, ha, hb]
+
+/-- `==` of the translated source is symmetric on FeatureCollections -/
+theorem src_fcEq_symm (a b : Coll) (ha : a.tag = .fc) (hb : b.tag = .fc) :
+    Src.Coll.fcEqFc qdt xi xc qc a b = Src.Coll.fcEqFc qdt xi xc qc b a := by
+  rw [((fcEq_eq qdt xi xc qc a b ()).1 hb), ((fcEq_eq qdt xi xc qc b a ()).1 ha)]
+  exact eqFC_symm a b ha hb
+
 /-- the list-protocol laws of C18, restated for the translated source -/
 theorem src_contains_iff (c : Coll) (item : Shape) :
     Src.Coll.contains qdt xi xc qc c item = true ↔ ∃ x ∈ c.shapes, x.id = item.id ∨ x.eqc = item.eqc := by
